@@ -11,3 +11,4 @@ for ID in "$@"; do
 	echo "$ID exit=$rc $(grep -m1 'signature:' /verif/work/seedrun_$ID.log | sed 's/^ *//')"
 done
 git -C /repo checkout -- .
+git -C /verif checkout -- evidence
